@@ -972,6 +972,21 @@ class Executor:
         st.frames.pop()
         if frame.post is not None:
             rv = self.apply_post(st, frame.post, rv)
+            if isinstance(rv, tuple) and rv and rv[0] == 'CALL':
+                # continuation: the summary that issued the call wants another call (iterator adaptors calling a closure per element)
+                _, callee, cargs, post = rv
+                if isinstance(callee, Agg):
+                    self.call_closure(st, callee, cargs, frame.dest, frame.target)
+                elif isinstance(callee, FnItem):
+                    res = self.prog.resolve(subst(callee.name, callee.bind or {}), len(cargs), callee.bind or {})
+                    if res is None:
+                        raise Unsupported('continuation call to a summarised fn item')
+                    self.push_frame(st, res[0], cargs, frame.dest, frame.target, bind=res[1])
+                else:
+                    self.push_frame(st, callee, cargs, frame.dest, frame.target)
+                if post is not None:
+                    st.frames[-1].post = post
+                return None
         if frame.dest is not None:
             caller = st.frames[-1]
             if frame.dest != 'DISCARD':
